@@ -137,6 +137,9 @@ func (s *scen18) note(sync bool, d *api.ConnectionStateDetail) {
 }
 
 func (s *scen18) ServicePairingDetailUpdate(ski string, d *api.ConnectionStateDetail) {
+	if ski != s.ski {
+		return // the other remote service of a "noisy" history: not this SKI's notifications
+	}
 	if curGid() == s.driverGid {
 		// synchronous: inside an operation, the scenario lock is held by this goroutine
 		s.note(true, d)
@@ -191,6 +194,11 @@ func (s *scen18) apply(st step18) {
 			s.spawned++
 		}
 		s.obs = append(s.obs, "ORepl "+vh.B(repl))
+	case "noise":
+		// a state report of a connection to ANOTHER remote service of the same hub (it is not an
+		// event of this SKI's history: operations on one SKI do not touch another)
+		s.human = append(s.human, fmt.Sprintf("other-ski-report(%d)", st.st))
+		s.h.HandleShipHandshakeStateUpdate(noiseSki, model.ShipState{State: model.ShipMessageExchangeState(st.st)})
 	case "connreg":
 		s.events = append(s.events, "EConnReg")
 		s.human = append(s.human, "connreg")
@@ -496,15 +504,42 @@ func random18(r *vh.Rng) *scen18 {
 	return s
 }
 
+const noiseSki = "eeeeeeeeeeeeeeeeeeeeeeeeeeeeeeeeeeeeee02"
+
+// a third of the generated histories are "noisy": a second remote service of the same hub goes
+// through handshake states of its own in between (0-400 ms after this SKI's reports)
+func addNoise(r *vh.Rng, s *scen18) {
+	var out []step18
+	other := []int{1, 2, 3, 6, 7, 8, 13, 19, 22, 24, 26, 27, 31, 36, 37, 38}
+	k := 0
+	for _, st := range s.script {
+		out = append(out, st)
+		if st.op == "report" && r.Chance(45) {
+			if r.Chance(50) {
+				out = append(out, pause(vh.Pick(r, []int{1, 20, 100, 300, 400})))
+			}
+			out = append(out, step18{op: "noise", st: other[k%len(other)]})
+			k++
+		}
+	}
+	s.script = out
+	s.kind += "+other_ski"
+}
+
 func runC18(r *vh.Rng, n int, w *vh.Writer) {
 	var all []*scen18
 	all = append(all, witnessOvertake(), witnessOvertake(), witnessBurst(), witnessBurst(), witnessCancelIgnored())
 	for len(all) < n {
+		var s *scen18
 		if r.Chance(55) {
-			all = append(all, realistic(r))
+			s = realistic(r)
 		} else {
-			all = append(all, random18(r))
+			s = random18(r)
 		}
+		if r.Chance(33) {
+			addNoise(r, s)
+		}
+		all = append(all, s)
 	}
 	for i, s := range all {
 		s.ski = fmt.Sprintf("%040x", i+1)
